@@ -172,7 +172,9 @@ def _run_watch(cmd, env, preexec, timeout, dump):
             for n in os.listdir(dump):
                 os.unlink(os.path.join(dump, n))
             if attempt == 2:
-                raise
+                # the implementation does not terminate on this input: an outcome of the run (reported as exit status -24,
+                # "timed out"), not a failure of the harness
+                return _Done(-24, b"", b"TIMEOUT: the run was still alive after %d s and was killed" % timeout)
 
 
 class Result:
